@@ -1371,6 +1371,111 @@ func (c *Ctx) ruleJsightFirst() {
 	} else {
 		r.Bad("C03-JSIGHT-FIRST", "buildCatalog", "the JSIGHT-first test is missing or does not dominate addDirectives", c.pos(f.Decl.Pos()))
 	}
+	// before any directive is taken out of the scanned list: a function that removes elements from core.directives
+	// (collectMacro) is only called after a JSIGHT-first test of that very list (F28: a leading MACRO hid a missing
+	// or misplaced JSIGHT from the test in buildCatalog, which looks at the list after the removal)
+	if dirs := c.coreField("directives"); dirs != nil {
+		isGuardOn := func(g *Fn, ifs *ast.IfStmt) bool {
+			if !returnsNonNilError(g.Pkg, ifs.Body.List) {
+				return false
+			}
+			usesJs, idx0 := false, false
+			ast.Inspect(ifs.Cond, func(m ast.Node) bool {
+				switch x := m.(type) {
+				case *ast.SelectorExpr:
+					if g.Pkg.TypesInfo.Uses[x.Sel] == js && js != nil {
+						usesJs = true
+					}
+				case *ast.IndexExpr:
+					if k, ok := constInt(g.Pkg, x.Index); ok && k == 0 && fieldSel(g.Pkg, x.X) == dirs {
+						idx0 = true
+					}
+				}
+				return true
+			})
+			return usesJs && idx0
+		}
+		nRem := 0
+		for _, rem := range c.libFns() {
+			if rem.Pkg != pk {
+				continue
+			}
+			removes := false
+			ast.Inspect(rem.Decl.Body, func(n ast.Node) bool {
+				as, ok := n.(*ast.AssignStmt)
+				if !ok || len(as.Lhs) != 1 || len(as.Rhs) != 1 || fieldSel(pk, as.Lhs[0]) != dirs {
+					return true
+				}
+				if call, ok := ast.Unparen(as.Rhs[0]).(*ast.CallExpr); ok && len(call.Args) == 2 && call.Ellipsis.IsValid() {
+					if id, ok := call.Fun.(*ast.Ident); ok && id.Name == "append" {
+						if _, isSlice := ast.Unparen(call.Args[0]).(*ast.SliceExpr); isSlice {
+							removes = true
+						}
+					}
+				}
+				return true
+			})
+			if !removes {
+				continue
+			}
+			for _, g := range c.libFns() {
+				if g.Pkg != pk {
+					continue
+				}
+				calls := callsIn(pk, g.Decl.Body, rem.Obj)
+				if len(calls) == 0 {
+					continue
+				}
+				gcf := buildCFG(g.Decl.Body)
+				for _, call := range calls {
+					nRem++
+					ok := false
+					ast.Inspect(g.Decl.Body, func(n ast.Node) bool {
+						if ifs, isIf := n.(*ast.IfStmt); isIf && isGuardOn(g, ifs) && gcf.dominatedBy(call, ifs.Cond) {
+							ok = true
+						}
+						return true
+					})
+					// a list without any directive has no JSIGHT either
+					emptyOK := false
+					ast.Inspect(g.Decl.Body, func(n ast.Node) bool {
+						ifs, isIf := n.(*ast.IfStmt)
+						if !isIf || !returnsNonNilError(g.Pkg, ifs.Body.List) || !gcf.dominatedBy(call, ifs.Cond) {
+							return true
+						}
+						for _, at := range impliedAtoms(ifs.Cond, true) {
+							be, isBe := at.e.(*ast.BinaryExpr)
+							if !isBe || !at.holds {
+								continue
+							}
+							lc, isCall := ast.Unparen(be.X).(*ast.CallExpr)
+							if !isCall || len(lc.Args) != 1 || exprString(lc.Fun) != "len" || fieldSel(g.Pkg, lc.Args[0]) != dirs {
+								continue
+							}
+							if k, isK := constInt(g.Pkg, be.Y); isK && ((be.Op == token.EQL && k == 0) || (be.Op == token.LSS && k == 1) || (be.Op == token.LEQ && k == 0)) {
+								emptyOK = true
+							}
+						}
+						return true
+					})
+					if emptyOK {
+						r.Ok("C03-JSIGHT-FIRST", g.Obj.Name()+" | empty document", "a list without any directive returns the JSIGHT error", c.pos(call.Pos()))
+					} else {
+						r.Bad("C03-JSIGHT-FIRST", g.Obj.Name()+" | empty document", "a document without any directive passes the JSIGHT test: it is accepted with an empty jsight version", c.pos(call.Pos()))
+					}
+					key := fmt.Sprintf("%s before %s", g.Obj.Name(), rem.Obj.Name())
+					if ok {
+						r.Ok("C03-JSIGHT-FIRST", key, "the first-directive test of the scanned list precedes the removal of directives from it", c.pos(call.Pos()))
+					} else {
+						r.Bad("C03-JSIGHT-FIRST", key, "directives are removed from the scanned list before it was tested that its first element is JSIGHT: a leading MACRO hides a missing or misplaced JSIGHT", c.pos(call.Pos()))
+					}
+				}
+			}
+		}
+		if nRem == 0 {
+			r.OkTrivial("C03-JSIGHT-FIRST", "removal", "no function removes elements from the scanned directive list", "")
+		}
+	}
 	if g := c.fn("catalog", "Catalog.AddJSight"); g != nil {
 		ok := false
 		ast.Inspect(g.Decl.Body, func(n ast.Node) bool {
